@@ -22,6 +22,6 @@ for kind in ("seeds", "mutants", "benign"):
 m = "\n".join(lines)
 p = os.path.join(V, "DESIGN.md")
 d = open(p).read()
-d = re.sub(r"<!-- MATRIX:BEGIN -->.*?<!-- MATRIX:END -->", "<!-- MATRIX:BEGIN -->\n" + m + "\n<!-- MATRIX:END -->", d, flags=re.S)
+d = re.sub(r"<!-- MATRIX:BEGIN -->.*?<!-- MATRIX:END -->", lambda _m: "<!-- MATRIX:BEGIN -->\n" + m + "\n<!-- MATRIX:END -->", d, flags=re.S)
 open(p, "w").write(d)
 print("matrix rows:", len(lines) - 2)
